@@ -623,6 +623,12 @@ func (c *Conn) Close() {
 	c.Forget()
 }
 
+// Abort tears the transport down in both directions without any TLS
+// close_notify: the peer has vanished, the server's writes fail from now on.
+func (c *Conn) Abort() {
+	c.Raw.Close()
+}
+
 // CloseWrite half-closes the harness side (the server reads EOF).
 func (c *Conn) CloseWrite() {
 	if c.tlsC != nil {
